@@ -46,12 +46,14 @@ var recurKinds = []struct {
 	{"host-Call", `hostCall()`},
 	{"host-ValueCall", `hostValueCall()`},
 	{"host-Eval", `hostEval()`},
+	{"direct-eval-only", `eval(es)`}, // the cycle is eval alone: no function scope between the levels
 }
 
 const recurPrelude = `
 var n = 0, geval = eval;
 function step(){ n++; if (n >= CAP) return 0; return CYCLE; }
 var Fn = Function("return step()");
+var es = "(++n >= CAP) ? 0 : eval(es)";
 var og = {get p(){ return step() }};
 var os = {set p(v){ step() }};
 var ov = {valueOf: function(){ return step() }};
